@@ -28,13 +28,43 @@ Record mat_def_case := {
   md_modulo : Z; md_n : nat; md_mats : list (list (list Z));
   md_invmap : option (list nat); md_flag : bool;
   md_cands : list (list (list Z));                 (* rint(np.linalg.inv(M_i)) as recorded *)
+  md_exacts : list (option (list (list Z)));       (* what the exact rational fallback returned (None: not called / no integer inverse) *)
   md_invs : list (result (list (list Z)));         (* M_i.inv *)
   md_mic_missing : list nat;                       (* indices whose inverse make_inverse_closed appended *)
 }.
+
+(* MatrixGenerator.inv (after fix F24): the rounded floating-point inverse first; when its product check fails, the exact
+   rational Gauss-Jordan inverse, if it is an integer matrix; then the product check (the assertion). Both candidates are oracle
+   arguments: the result is an inverse whatever they are (DefProofs.mat_inv_sound_*, mat_inv_fb_some). *)
+Definition mat_inv_fb (modulo : Z) (n : nat) (M cand : list (list Z)) (exact : option (list (list Z))) : result (list (list Z)) :=
+  match mat_inv modulo n M cand with
+  | Ok r => Ok r
+  | Err _ => match exact with Some e => mat_inv modulo n M e | None => Err AssertionErr end
+  end.
+
+Lemma mat_inv_fb_some modulo n M cand exact M' :
+  mat_inv_fb modulo n M cand exact = Ok M' -> exists c, mat_inv modulo n M c = Ok M'.
+Proof.
+  unfold mat_inv_fb. destruct (mat_inv modulo n M cand) eqn:E1.
+  - intros H. inversion H. subst. exists cand. exact E1.
+  - destruct exact as [ex|]; [|discriminate]. intros H. exists ex. exact H.
+Qed.
+
+(* completeness relative to the fallback: if it delivers a right inverse, inv succeeds (no assumption on the float candidate) *)
+Lemma mat_inv_fb_complete modulo n M cand e :
+  mat_mul modulo n M e = eye n -> exists M', mat_inv_fb modulo n M cand (Some e) = Ok M'.
+Proof.
+  intros H. unfold mat_inv_fb. destruct (mat_inv modulo n M cand) eqn:E1; [eauto|].
+  unfold mat_inv. rewrite H.
+  assert (Hr : forall A : list (list Z), mat_eqb A A = true).
+  { intros A. unfold mat_eqb, z_list2_eqb, z_list_eqb. induction A as [|r t IH]; simpl; auto. rewrite IH, andb_true_r.
+    induction r as [|x r IHr]; simpl; auto. rewrite Z.eqb_refl. exact IHr. }
+  rewrite Hr. eauto.
+Qed.
 
 Definition check_mat_def (c : mat_def_case) : bool :=
   let m := matrix_inverse_map (md_modulo c) (md_n c) (md_mats c) in
   opt_nl_eqb m (md_invmap c) && Bool.eqb (is_some m) (md_flag c)
   && list_eqb (result_eqb z_list2_eqb)
-       (map (fun '(M, cand) => mat_inv (md_modulo c) (md_n c) M cand) (combine (md_mats c) (md_cands c))) (md_invs c)
+       (map (fun '(M, cand, ex) => mat_inv_fb (md_modulo c) (md_n c) M cand ex) (combine (combine (md_mats c) (md_cands c)) (md_exacts c))) (md_invs c)
   && nat_list_eqb (mic_matrix_missing (md_modulo c) (md_n c) (md_mats c)) (md_mic_missing c).
